@@ -1,0 +1,217 @@
+//! Read-only canonical rendering of the engine state for the verification harness
+//! (compiled only with `--cfg walrus_verif`). File names are replaced by their rank in
+//! the sorted directory listing so that the rendering does not depend on the clock.
+
+use super::Walrus;
+use super::allocator::{BlockStateTracker, FileStateTracker};
+use crate::wal::block::Block;
+use std::collections::BTreeMap;
+use std::fmt::Write as _;
+
+fn fnv(data: &[u8]) -> u64 {
+    crate::wal::config::checksum64(data)
+}
+
+impl Walrus {
+    /// JSON text. `topics` lists the topics whose cursor-index entry, count and marker
+    /// are rendered in addition to every topic the reader or writer maps know.
+    pub fn __verif_digest(&self, topics: &[&str]) -> String {
+        let root = self.paths.root().to_path_buf();
+        // directory listing (names only, sorted the way recovery sorts them)
+        let mut names: Vec<String> = Vec::new();
+        if let Ok(rd) = std::fs::read_dir(&root) {
+            for e in rd.flatten() {
+                if let Some(s) = e.path().to_str() {
+                    names.push(s.to_string());
+                }
+            }
+        }
+        names.sort();
+        let mut rank: BTreeMap<String, String> = BTreeMap::new();
+        let mut wal_rank = 0usize;
+        for n in names.iter() {
+            let base = n.rsplit('/').next().unwrap_or(n).to_string();
+            if base.ends_with("_index.db") || base.ends_with(".tmp") {
+                rank.insert(n.clone(), base);
+            } else {
+                rank.insert(n.clone(), format!("F{}", wal_rank));
+                wal_rank += 1;
+            }
+        }
+        let rk = |p: &str| -> String {
+            match rank.get(p) {
+                Some(r) => r.clone(),
+                None => {
+                    // a file of another directory (another instance) or a deleted file
+                    if p.starts_with(root.to_str().unwrap_or("\u{0}")) {
+                        "GONE".to_string()
+                    } else {
+                        "FOREIGN".to_string()
+                    }
+                }
+            }
+        };
+        let blk = |b: &Block| -> String {
+            format!(
+                "{{\"id\":{},\"file\":\"{}\",\"off\":{},\"limit\":{},\"used\":{}}}",
+                b.id,
+                rk(&b.file_path),
+                b.offset,
+                b.limit,
+                b.used
+            )
+        };
+
+        let mut out = String::new();
+        out.push('{');
+
+        // files with content hashes
+        out.push_str("\"files\":[");
+        let mut first = true;
+        for n in names.iter() {
+            let meta = std::fs::metadata(n).ok();
+            let is_dir = meta.as_ref().map(|m| m.is_dir()).unwrap_or(false);
+            let (len, h) = if is_dir {
+                (0u64, 0u64)
+            } else {
+                match std::fs::read(n) {
+                    Ok(bytes) => {
+                        // hash only up to the last non-zero byte (files are sparse)
+                        let end = bytes.iter().rposition(|&b| b != 0).map(|p| p + 1).unwrap_or(0);
+                        (bytes.len() as u64, fnv(&bytes[..end]))
+                    }
+                    Err(_) => (0, 1),
+                }
+            };
+            if !first {
+                out.push(',');
+            }
+            first = false;
+            let _ = write!(
+                out,
+                "{{\"name\":\"{}\",\"len\":{},\"fnv\":\"{:016x}\",\"dir\":{}}}",
+                rk(n),
+                len,
+                h,
+                is_dir
+            );
+        }
+        out.push_str("],");
+
+        // topics known to reader / writers / caller
+        let mut all: BTreeMap<String, ()> = BTreeMap::new();
+        for t in topics {
+            all.insert((*t).to_string(), ());
+        }
+        if let Ok(m) = self.reader.data.read() {
+            for k in m.keys() {
+                all.insert(k.clone(), ());
+            }
+        }
+        if let Ok(m) = self.writers.read() {
+            for k in m.keys() {
+                all.insert(k.clone(), ());
+            }
+        }
+
+        out.push_str("\"topics\":{");
+        let mut first = true;
+        for t in all.keys() {
+            if !first {
+                out.push(',');
+            }
+            first = false;
+            let _ = write!(out, "\"{}\":{{", t.escape_default());
+            // reader column
+            let info_arc = self.reader.data.read().ok().and_then(|m| m.get(t).cloned());
+            match info_arc {
+                Some(arc) => {
+                    if let Ok(info) = arc.read() {
+                        out.push_str("\"chain\":[");
+                        for (i, b) in info.chain.iter().enumerate() {
+                            if i > 0 {
+                                out.push(',');
+                            }
+                            out.push_str(&blk(b));
+                        }
+                        let _ = write!(
+                            out,
+                            "],\"cur_idx\":{},\"cur_off\":{},\"tail_id\":{},\"tail_off\":{},\"rsp\":{},\"hyd\":{},",
+                            info.cur_block_idx,
+                            info.cur_block_offset,
+                            info.tail_block_id,
+                            info.tail_offset,
+                            info.reads_since_persist,
+                            info.hydrated_from_index
+                        );
+                    } else {
+                        out.push_str("\"chain\":null,");
+                    }
+                }
+                None => out.push_str("\"chain\":null,"),
+            }
+            // writer
+            let w = self.writers.read().ok().and_then(|m| m.get(t).cloned());
+            match w.and_then(|w| w.snapshot_block().ok()) {
+                Some((b, off)) => {
+                    let _ = write!(out, "\"writer\":{{\"blk\":{},\"off\":{}}},", blk(&b), off);
+                }
+                None => out.push_str("\"writer\":null,"),
+            }
+            // persisted cursor (in-memory copy of the index map)
+            let pos = self
+                .read_offset_index
+                .read()
+                .ok()
+                .and_then(|g| g.get(t).map(|p| (p.cur_block_idx, p.cur_block_offset)));
+            match pos {
+                Some((i, o)) => {
+                    let tail = (i >> 63) & 1;
+                    let _ = write!(
+                        out,
+                        "\"idx\":{{\"tail\":{},\"i\":{},\"off\":{}}},",
+                        tail,
+                        i & !(1u64 << 63),
+                        o
+                    );
+                }
+                None => out.push_str("\"idx\":null,"),
+            }
+            let _ = write!(
+                out,
+                "\"count\":{},\"clean\":{}}}",
+                self.get_topic_entry_count(t),
+                self.topic_is_clean(t)
+            );
+        }
+        out.push_str("},");
+
+        // allocator
+        let (nid, nfile, noff) = self.allocator.verif_state();
+        let _ = write!(
+            out,
+            "\"alloc\":{{\"next_id\":{},\"file\":\"{}\",\"off\":{}}},",
+            nid,
+            rk(&nfile),
+            noff
+        );
+
+        // trackers (process-global)
+        out.push_str("\"blocks\":[");
+        for (i, (id, p, ck)) in BlockStateTracker::verif_dump().into_iter().enumerate() {
+            if i > 0 {
+                out.push(',');
+            }
+            let _ = write!(out, "[{},\"{}\",{}]", id, rk(&p), ck);
+        }
+        out.push_str("],\"filestate\":[");
+        let mut fs: Vec<String> = FileStateTracker::verif_dump()
+            .into_iter()
+            .map(|(p, l, c, t, f)| format!("[\"{}\",{},{},{},{}]", rk(&p), l, c, t, f))
+            .collect();
+        fs.sort();
+        out.push_str(&fs.join(","));
+        out.push_str("]}");
+        out
+    }
+}
